@@ -18,7 +18,7 @@ CHECKS = {
             "dominance + who-may-call/write tables + ALL-EXITS path counting on a step-level CFG with exception and cancellation edges", "5 C01",
             TB + "Declined: the arithmetic bound and the idle-time equality is_full <=> running == size (follow from the discipline)."),
     "C02": ("HANDOFF rule (slot acquired by creator, released only in the new task's body: finding F1), life-cycle typestate over CFG x (registry, slot) on all edge kinds: every "
-            "exit of the wrapper has slot=free, registry=ended; wrapper armed before any suspension; SNAPSHOT-FORGET on flush; registry who-may-write table; PUBLISHED-BEFORE-FIRST-STEP (the task is filed after create_task returned: finding F10 under an eager task factory); FORGET-ONLY-GATHERED shared.",
+            "exit of the wrapper has slot=free, registry=ended; wrapper armed before any suspension; SNAPSHOT-FORGET on flush; registry who-may-write table; PUBLISHED-BEFORE-FIRST-STEP (the task is filed after create_task returned: finding F10 under an eager task factory); FORGET-ONLY-GATHERED shared; execute_optional awaits a callback's result on the iscoroutinefunction(function) branch and only there.",
             "typestate abstract interpretation over CFG x finite state with callee summaries; HANDOFF and SNAPSHOT-FORGET rules", "5 C02",
             TB + "Declined: 'eventually' (liveness) and end-of-run capacity counts. F1 and F10 are recorded known findings."),
     "C03": ("Life-cycle typestate with callback roles: at every suspension/user step the id is in exactly one registry; cancel callback begun exactly once iff the coroutine left by "
@@ -28,7 +28,7 @@ CHECKS = {
             TB + "Declined: the counter identity as arithmetic (follows from the transition table). F1 and F10 shared."),
     "C04": ("Per-iteration typestate of _apply_spawner/_start_num (exactly one func(*args, **kwargs) per iteration, handed to exactly one completed _start_task, raising call skipped, "
             "loop left early only by cancellation), range(num) shape, UNREACHABLE-RAISE of PoolIsLocked from spawners by constant propagation of ignore_lock, one spawner task "
-            "per accepted request, argument role wiring, no time-outs; SNAPSHOT-FRESH (copy clause: gather_and_close waits for the spawners the registry holds when the wait starts).",
+            "per accepted request, argument role wiring, no time-outs; SNAPSHOT-FRESH (copy clause: gather_and_close waits for the spawners the registry holds when the wait starts); EXTERNAL-PREDICATES (iscoroutine / iscoroutinefunction are asyncio's, so the spawner's re-check agrees with what the loop runs).",
             "iteration typestate + context-sensitive constant propagation into guards + wiring", "5 C04",
             TB + "Declined: waiting 'however long' as a temporal statement (no time-out exists: checked as a zero-count rule with a positive control)."),
     "C05": ("Constant table map/starmap/doublestarmap -> 0/1/2 -> star_function branch shapes (by constant propagation; with 0/1/2 star_function raises nothing of its own and returns only through the call), iterable forwarded lazily to exactly one for-header, "
@@ -37,7 +37,7 @@ CHECKS = {
             "table agreement by constant propagation + iteration typestate + who-may tables", "5 C05",
             TB + "Declined: 'exactly num_concurrent running whenever idle' as a count. F1 shared (known finding)."),
     "C06": ("Two-phase cancel (no look-up or raising step reachable after a Task.cancel), look-up table decided by abstract interpretation over the four id states "
-            "(running/cancelled/ended/unknown -> return / AlreadyCancelled / AlreadyEnded / TaskNotFound<=InvalidTaskID), who-may-cancel table, cancelled tasks are exactly the looked-up list; an id names one task (id discipline shared with C11); NO-SHARED-TASK (no pool coroutine awaits a task kept in an attribute); NO-SWALLOW (no public coroutine of the pool absorbs a cancellation delivered at its own suspension points; F9 fixed).",
+            "(running/cancelled/ended/unknown -> return / AlreadyCancelled / AlreadyEnded / TaskNotFound<=InvalidTaskID), who-may-cancel table, cancelled tasks are exactly the looked-up list; an id names one task (id discipline shared with C11); NO-SHARED-TASK (no pool coroutine awaits a task kept in an attribute); NO-SWALLOW (no public coroutine of the pool absorbs a cancellation delivered at its own suspension points; F9 fixed); FORGET-ONLY-GATHERED in gather_and_close as a premise (a running task is found while it is filed).",
             "CFG reachability + abstract interpretation of the look-up over 4 cases + who-may-call", "5 C06",
             TB + "Declined: 'observes one CancelledError at its next suspension point' (Task semantics). F1 shared."),
     "C07": ("cancel_group validates first and raises only TaskGroupNotFound; cancel_all returns only with an empty table and hands every entry to the helper; spawners cancelled before "
@@ -47,11 +47,11 @@ CHECKS = {
             TB + "Declined: re-entrant cancel from the group's own iterator (excluded by the property); progress of sibling groups (liveness)."),
     "C08": ("Order lock -> spawner waits -> task wait (all three registries) -> forget -> _closed.set() by completion-dominance; who-may set/clear the closed event; GATHER-COMPLETE "
             "(no swallowed early completion; cancelled-spawner gather uses return_exceptions=True); closed pools reject first (precedence in _check_start, VALIDATE-FIRST); "
-            "PoolIsLocked unreachable from spawners; FORGET-ONLY-GATHERED (may-analysis of registries that can hold an un-gathered task); HANDOFF shared; slot balance of the acquirer (a lost slot leaves a blocked spawner, and the close, waiting forever); a cancelled group's spawners are cancelled on every way through the group helper; SNAPSHOT-FRESH (no eager copy of a registry taken before a suspension and gathered after it; no iterator over a registry - a generator expression's outermost iterable - created before a suspension and advanced after it: F11, fixed).",
+            "PoolIsLocked unreachable from spawners; FORGET-ONLY-GATHERED (may-analysis of registries that can hold an un-gathered task); HANDOFF shared; slot balance of the acquirer (a lost slot leaves a blocked spawner, and the close, waiting forever); a cancelled group's spawners are cancelled on every way through the group helper; SNAPSHOT-FRESH (no eager copy of a registry taken before a suspension and gathered after it; no iterator over a registry - a generator expression's outermost iterable - created before a suspension and advanced after it: F11, fixed); execute_optional awaits nothing a plain callback merely returns.",
             "completion-dominance on the CFG + GATHER-COMPLETE rule + constant propagation", "5 C08",
             TB + "Declined: 'returns only after every task finished' as a temporal statement (follows from the order + trusted gather). F1 shared."),
     "C09": ("VALIDATE-FIRST on every spawning entry point and the pool_size setter (no trace completes before any raising exit), precedence type-check < closed < locked, raise inventory "
-            "by constant propagation (each documented rejection reachable, exact comparison constants), who-may-write the lock flag, lock/unlock idempotent and non-raising; FUNCTION-PREDICATE (nothing but what iscoroutinefunction accepts passes the function check, by three-valued evaluation of the checks).",
+            "by constant propagation (each documented rejection reachable, exact comparison constants), who-may-write the lock flag, lock/unlock idempotent and non-raising; FUNCTION-PREDICATE (nothing but what iscoroutinefunction accepts passes the function check, by three-valued evaluation of the checks); EXTERNAL-PREDICATES.",
             "path rule VALIDATE-FIRST + constant propagation + who-may-write", "5 C09", TB + "Declined: nothing structural."),
     "C10": ("Exactly one register add per started task, in the register filed under the task's group_name, same id as the running-registry key, one atomic segment; who-may add/remove; "
             "group-name wiring through all hops and return values; name templates by abstract string evaluation; generated names returned only after the membership test; "
@@ -68,29 +68,29 @@ CHECKS = {
             "SNAPSHOT-FORGET data-flow rule + effect closure + dominance", "5 C13", TB + "Declined: overlapping flushes as a temporal statement (covered per call by the snapshot rule)."),
     "C14": ("Idiom-based: ids drawn from the reversed running registry, prefix bounded by num with the test before the append, delegated once to cancel(*ids), same list returned, "
             "stop_all == stop(num_running); the bound is the num parameter itself (`num or x` makes 0 mean all); also islice / slice / takewhile forms and helpers returning the list; "
-            "positive rule: the value of an id never steers the selection (ids have gaps); cancel's own rules shared (NO-SWALLOW included). Unrecognised computations are inconclusive.",
+            "positive rule: the value of an id never steers the selection (ids have gaps); cancel's own rules shared (NO-SWALLOW included). Unrecognised computations are inconclusive; every way out of the task wrapper (BaseException included) files the task as ended, so the running registry holds running tasks only.",
             "syntax-directed idiom recognition + CFG dominance", "5 C14", TB + "Declined: nothing else is structural. F1 shared."),
     "C15": ("Getter must read configuration-only paths (violated: F5a), setter must not overwrite the occupancy-dependent counter with its parameter (F5b), raising the limit must wake "
-            "waiters (F5c), validation precedes the write with the exact comparison, the semaphore object waiters are parked on is bound once; SNAPSHOT-FORGET shared (a task forgotten inside its callback never releases its slot).",
+            "waiters (F5c), validation precedes the write with the exact comparison, the semaphore object waiters are parked on is bound once; SNAPSHOT-FORGET shared (a task forgotten inside its callback never releases its slot); FORGET-ONLY-GATHERED in gather_and_close as a premise of the slot balance.",
             "effect analysis (who writes the paths the getter reads) + VALIDATE-FIRST", "5 C15", TB + "F5a-c are recorded known findings; mixed arithmetic is inconclusive, not a violation."),
     "C16": ("Handshake sequence by completion-dominance (read, json, parser with the session's buffer and the client's width, add_subparsers, add_class_commands(run-time class), "
             "name + newline, drain); command surface (getmembers, '_' filter with public_only default True, function/property dispatch, dash names, member stored under CMD, help enabled); "
-            "EXECUTABLE (a required argument is filed under the parameter name the session looks up); PARSER-CONFIG; TOTAL-INDEXING on the command-building path; TABLE(annotation kinds at run time vs what the converter does with them) over every public member of every pool class: finding F6; an annotation is looked at by identity only (never hashed or compared by value); OMIT-SELF; default help / description texts; TOKENS (the word typed is the word looked up); no parsing method of ArgumentParser overridden.",
+            "EXECUTABLE (a required argument is filed under the parameter name the session looks up); PARSER-CONFIG; TOTAL-INDEXING on the command-building path; TABLE(annotation kinds at run time vs what the converter does with them) over every public member of every pool class: finding F6; an annotation is looked at by identity only (never hashed or compared by value); OMIT-SELF; default help / description texts; TOKENS (the word typed is the word looked up); no parsing method of ArgumentParser overridden; PATH-AS-GIVEN (the Unix socket path is stored through Path()/str() only).",
             "dominance on the CFG + producer/consumer table agreement (annotation kind vs converter domain)", "5 C16",
             TB + "Declined: the bytes on the wire; help text for every width (argparse run-time behaviour). F6 is a recorded known finding."),
     "C17": ("Dispatch structure of _exec_method_and_respond (self, positional kinds in signature order, *args after, rest by keyword, through return_or_exception), RESULT-USED at all "
             "three return_or_exception call sites with the reply forms ok-if-None-else-str / str, add_function_arg mapping incl. the bool-defaults-to-False table over the pool classes, "
-            "return_or_exception semantics (called once, awaited under the coroutine guard, Exception returned, nothing but cancellation escapes - call and await); TOKENS (what reaches parse_args is the line split at blanks, words unchanged); OK-CONSTANT (the reply for a None result is the decoded module constant whose value is the text 'ok'); OMIT-SELF (the omitted-parameter default names the receiver and nothing else); CONVERSION-SITES (a type converter is installed only by add_function_arg from the parameter's own annotation; no argparse action is re-configured); PARSER-CONFIG (argparse reading options stay at their defaults); UNCONVERTED-ONLY-SENTINEL (only the SUPPRESS object itself bypasses conversion); buffer isolation; WIRE-CODEC (UTF-8, strict, on both sides of the wire); DISPATCH-NAMES (forwarding **kwargs cannot clash with a parameter of the receiving function); DISPATCH-KIND (functions to the method executor, properties to the property executor); no synchronisation object shared between sessions is held across a suspension; annotation table shared (F6).",
+            "return_or_exception semantics (called once, awaited under the coroutine guard, Exception returned, nothing but cancellation escapes - call and await); TOKENS (what reaches parse_args is the line split at blanks, words unchanged); OK-CONSTANT (the reply for a None result is the decoded module constant whose value is the text 'ok'); OMIT-SELF (the omitted-parameter default names the receiver and nothing else); CONVERSION-SITES (a type converter is installed only by add_function_arg from the parameter's own annotation; no argparse action is re-configured); PARSER-CONFIG (argparse reading options stay at their defaults); UNCONVERTED-ONLY-SENTINEL (only the SUPPRESS object itself bypasses conversion); buffer isolation; WIRE-CODEC (UTF-8, strict, on both sides of the wire); DISPATCH-NAMES (forwarding **kwargs cannot clash with a parameter of the receiving function); DISPATCH-KIND (functions to the method executor, properties to the property executor); no synchronisation object shared between sessions is held across a suspension; annotation table shared (F6); NO-TIME-OUTS(control).",
             "syntax-directed structure rules + RESULT-USED data-flow + path counting", "5 C17",
             TB + "Declined: equality of effects for every argument value (translation over run-time values). F6 shared (known finding)."),
     "C18": ("HATCHES (all four argparse escape hatches overridden, no print/sys.std*/exit in parser, session, server; positive control in client), per-iteration protocol of listen by "
             "typestate (one read, one command, one reply, drained), containment as structural sub-rules (handlers around parse_args cover ArgumentError/HelpRequested/ParserError and "
-            "fall through; the parser hooks that run inside parse_args leave exceptionally only as ParserError/HelpRequested; type wrapper lets only ArgumentTypeError/TypeError/ValueError out; pool members invoked only through return_or_exception after a successful parse), buffer isolation, PARSER-CONFIG, UNCONVERTED-ONLY-SENTINEL, SESSION-IS-LOCAL (per-connection objects live in the connection callback's locals); no lock shared between sessions is held across an await; DISPATCH-NAMES.",
+            "fall through; the parser hooks that run inside parse_args leave exceptionally only as ParserError/HelpRequested; type wrapper lets only ArgumentTypeError/TypeError/ValueError out; pool members invoked only through return_or_exception after a successful parse), buffer isolation, PARSER-CONFIG, UNCONVERTED-ONLY-SENTINEL, SESSION-IS-LOCAL (per-connection objects live in the connection callback's locals); no lock shared between sessions is held across an await; DISPATCH-NAMES; NO-TIME-OUTS(control); WHO(write ControlServer._server) = {__init__, serve_forever}.",
             "hatch/who-may rules + iteration typestate + exceptional-exit inventory", "5 C18",
             TB + "Declined: one reply 'when the wait is over'; output of concurrent sessions (follows from per-instance state)."),
     "C19": ("serve_forever awaits only the start-up and returns the serving task; _serve_forever runs _final_callback exactly once on every way out once serving began and absorbs "
             "cancellation; the unix callback unlinks the path that was listened on; ALL-EXITS(_client_connected_cb => writer.close) over normal/exception/cancellation edges; listen "
-            "re-tests is_serving and leaves on EOF; NO-SPIN-AT-EOF (no stream read is repeated on an empty result without a real suspension in between); SESSION-IS-LOCAL; WHO(write of the server attribute) = constructor and serve_forever; no shared lock held across an await; containment shared (no line can end a session); client closes and clears its flag on exit/EOF.",
+            "re-tests is_serving and leaves on EOF; NO-SPIN-AT-EOF (no stream read is repeated on an empty result without a real suspension in between); SESSION-IS-LOCAL; WHO(write of the server attribute) = constructor and serve_forever; no shared lock held across an await; containment shared (no line can end a session); client closes and clears its flag on exit/EOF; BLANK-AGREEMENT (while a blank line ends the session, the bundled client returns None or a provably non-empty command).",
             "ALL-EXITS path counting over all edge kinds + data-flow equality of paths", "5 C19",
             TB + "Declined: everything observable only on real sockets (promptness, refusal of new connections, other sessions unaffected)."),
     "C20": ("__aenter__ takes exactly one item and reaches no task_done on any edge (in particular the cancellation edge of the waiting get); __aexit__ reaches task_done exactly once "
